@@ -143,11 +143,16 @@ pub fn taylor_dd(f: Func, a0: DD, kmax: usize) -> Vec<DD> {
             x.deriv_over(&w).integ(a0.atanh())
         }
         Func::Powi(p) => {
-            if p >= 0 && a0.is_zero() {
-                // polynomial at zero: only the coefficient of t^p survives
+            if p >= 0 {
+                // polynomial: c_k = binom(p,k) a0^(p-k), exact structure also at zero and for
+                // arguments whose powers underflow
                 let mut s = Series::zero(n);
-                if (p as usize) < n {
-                    s.0[p as usize] = DD::ONE;
+                let mut b = DD::ONE;
+                for k in 0..n.min(p as usize + 1) {
+                    if k > 0 {
+                        b = b.mul_f((p as usize - k + 1) as f64).div_dd(DD::f(k as f64));
+                    }
+                    s.0[k] = b.mul_dd(a0.powi(p - k as i64));
                 }
                 s
             } else {
